@@ -276,6 +276,15 @@ func (d *Dynamic) Draw(ctx vxfw.DrawContext) (vxfw.Surface, error) {
 					ch.Origin.Row += adj
 					s.Children[i] = ch
 				}
+			} else if ch.Origin.Row < 0 {
+				// It starts above the viewport (the widgets
+				// before it became shorter than the scroll
+				// offset accounts for): bring its top into view
+				adj := -ch.Origin.Row
+				for i, ch := range s.Children {
+					ch.Origin.Row += adj
+					s.Children[i] = ch
+				}
 			}
 			d.scroll.wantsCursor = false
 
